@@ -35,6 +35,7 @@ PIECES = [
     "#NOTEDATA:;",
     "#STEPSTYPE:x;",
     "#NOTES:0000;",
+    "#NOTES:0\\\\00\\\\;",
     "#NOTES2:1111;",
     "#CREDIT:;",
     "#NOTES:;",
